@@ -269,6 +269,42 @@ func init() {
 		err := t.newTemp("cerr", Ite(Or(ILe(n, IntLit(0)), ILe(n, avail)), IntLit(0), Select(t.rdErr(), r)))
 		return []sval{{e: got, typ: types.Typ[types.Int64]}, {e: err, typ: errorT()}}
 	}
+	// io.Reader.Read(p) on the abstract source (its bytes rdData[0:rdLen), then rdErr for ever): the
+	// next n bytes, 0 <= n <= min(len(p), available); with bytes available and room in p it makes
+	// progress; the source's error comes with the last bytes or after them, never before.
+	invokeContracts["io.Reader.Read"] = func(f *frame, c *ssa.CallCommon, args []sval) []sval {
+		t := f.t
+		th := t.th
+		if th.bv {
+			fail("io.Reader.Read in bv theory")
+		}
+		r, buf := args[0].e, args[1].e
+		f.check(Not(Eq(r, IntLit(0))), "nil-reader")
+		mem := t.mem(types.Typ[types.Uint8])
+		pos := t.newTemp("rpos", Select(t.rdPos(), r))
+		total := Select(t.rdLen(), r)
+		terr := Select(t.rdErr(), r)
+		t.cur.Assume(And(ILe(IntLit(0), pos), ILe(pos, total), Not(Eq(terr, IntLit(0)))))
+		avail := t.newTemp("avail", ISub(total, pos))
+		want := th.SLen(buf)
+		n := t.havocTemp("rn", SInt, intT)
+		t.cur.Assume(And(ILe(IntLit(0), n), ILe(n, want), ILe(n, avail),
+			Implies(And(IGt(avail, IntLit(0)), IGt(want, IntLit(0))), IGe(n, IntLit(1)))))
+		bp := t.newTemp("rbuf", th.SPtr(buf))
+		t.checkWrite(mem, bp, IAdd(bp, n), "io.Reader.Read")
+		t.checkModField(t.rdPos(), r)
+		data := Select(t.rdData(), r)
+		t.memUpdate(mem, bp, IAdd(bp, n), func(old, a Expr) Expr {
+			return Select(data, IAdd(pos, ISub(a, bp)))
+		})
+		t.cur.Assign(t.rdPos(), Store(t.rdPos(), r, IAdd(pos, n)))
+		e := t.havocTemp("rerr", th.Addr(), errorT())
+		// nil, or the source's error once everything has been handed over
+		t.cur.Assume(Or(Eq(e, IntLit(0)), And(Eq(n, avail), Eq(e, terr))))
+		// at the end of the source the error is reported (a Read that returns 0, nil for ever is excluded)
+		t.cur.Assume(Implies(And(Eq(avail, IntLit(0)), IGt(want, IntLit(0))), Eq(e, terr)))
+		return []sval{{e: n, typ: intT}, {e: e, typ: errorT()}}
+	}
 	// io.Writer.Write(p): appends all of p and returns (len(p), nil), or appends a strict
 	// prefix and returns a non-nil error. Any call may fail.
 	invokeContracts["io.Writer.Write"] = func(f *frame, c *ssa.CallCommon, args []sval) []sval {
